@@ -175,6 +175,8 @@ def CASES(tier, seed):
     OB = dict(max_paths=5000, max_wall_s=200, validate_paths=2, hard_timeout_s=230) if tier == 'quick' else dict(
         max_paths=300000, max_wall_s=1500, validate_paths=2, hard_timeout_s=1700)
     for si, st in enumerate(structs_B(tier, seed)):
+        if dense_size(st) > 100:
+            continue  # bound: primary operand with at most 100 entries (larger drawn structures hit the per-case time cap)
         for ci, chunk in enumerate(_chunks(opsB, 40 if tier == 'quick' else (8 if st['rank'] > 3 else 14))):
             cases.append(dict(name=f"B[{si},mod={st['mods']},rank={st['rank']}]ops{ci}:{_opsname(chunk)}",
                               fn='op_case', params=dict(struct=st, ops=chunk, cplx=(si % 2 == 1), subset='draw' if si % 3 else 'all'), opts=OB))
@@ -197,7 +199,7 @@ def CASES(tier, seed):
     # depth-2 programs over a reduced catalogue: all ordered pairs (op1 then op2 on its result)
     sB = structs_B(tier, seed)
     for si in ([1, 7] if tier == 'quick' else range(1, 16)):
-        if si >= len(sB) or sB[si]['rank'] > 3:
+        if si >= len(sB) or sB[si]['rank'] > 3 or (tier != 'quick' and dense_size(sB[si]) > 24):
             continue
         st = sB[si]
         for ci, chunk in enumerate(_chunks(PAIR_FIRST, 5 if tier == 'quick' else 2)):
